@@ -227,16 +227,20 @@ def r5_anchors(ctx, res):
         ('return', '#1', (f'{lch_max} != -1',)),
     ], 'lowest_common_hypernyms returns the common hypernyms of greatest depth ([] when nothing is shared)')
     v = T('taxonomy_depth')
-    ok = expect(res, 'anchor:taxonomy_depth', v, [
-        ('store', '#2 = max(#2, max((len(_1) for _1 in $1.hypernym_paths())))', ('$1.hypernym_paths()',), ('for _synsets_for_pos(wordnet, pos)',)),
-        ('return', '#2'),
-    ], 'taxonomy_depth is the longest hypernym path over ALL synsets of the part of speech')
+    # the maximum may be taken with max() over the path lengths or as a running maximum over the paths
+    running = v.find('store', '#2 = len($2)', ('len($2) > #2',), ('for _synsets_for_pos(wordnet, pos)', 'for $1.hypernym_paths()'))
+    if running:
+        specs = [('store', '#2 = len($2)', ('len($2) > #2',), ('for _synsets_for_pos(wordnet, pos)', 'for $1.hypernym_paths()')), ('return', '#2')]
+    else:
+        specs = [('store', '#2 = max(#2, max((len(_1) for _1 in $1.hypernym_paths())))', ('$1.hypernym_paths()',), ('for _synsets_for_pos(wordnet, pos)',)),
+                 ('return', '#2')]
+    ok = expect(res, 'anchor:taxonomy_depth', v, specs, 'taxonomy_depth is the longest hypernym path over ALL synsets of the part of speech')
     if ok:
         key = 'anchor:taxonomy_depth:skip-is-sound'
-        st = v.find('store', text_re=r'^#2 = max')
+        st = v.find('store', text_re=r'^#2 = (max|len)')
         extra = set()
         for r in st:
-            extra |= {g for g in r[2] if g != '$1.hypernym_paths()'}
+            extra |= {g for g in r[2] if g not in ('$1.hypernym_paths()', 'len($2) > #2')}
         res.inst(key, v.loc(), f'{sorted(extra)}')
         allowed = {'not all((_1 in #1 for _1 in $1.hypernyms()))'}
         if extra - allowed:
